@@ -254,7 +254,7 @@ CHECKS = {
        "populated, the real escaped_word_start + complete_path produce the candidates and the insertion, the harness splices it the "
        "way lineread 0.7.2 does and the real CommandLine::from_line plans the completed line (argv must be the entry's name, "
        "candidates the entries with the prefix). Every cluster of in-process mismatches and a sample of matches is typed into a live "
-       "pseudo-terminal session (prefix, TAB, Enter); the argv the helper program received decides.",
+       "pseudo-terminal session (prefix, TAB, Enter); the argv the helper program received decides. escaped_word_start (which part of the line TAB replaces) is transcribed statement by statement (spec/WordStart.tla): every string over 6 symbols up to length 6 (thorough 7) must get the same word start from the real function, and TLC checks the transcription against the reference reader's word boundary up to two named deviations.",
   design_ref="DESIGN.md 6 (C20)",
   note="Only pty-level failures are violations. The pinned tree has genuine defects here (11 known findings in known_findings.json, "
        "most sharing their root cause with the C01 backslash findings or with the reader's handling of \\$ \\` \\\\ inside double quotes); "
